@@ -96,6 +96,8 @@ FIXED = [
      "dense online: a named constant ('k = 3;' with 'out = x > k') returned [] for ever - the constant's one-time delivery was used up by the assertion k itself (side effect of the F17 repair)"),
     ('F26', ['C20'], 'fix: explain() kept the explanations of an earlier evaluation',
      'explain() after a second evaluate() on another log still reported (and merged) the intervals of the first log: a specification satisfied on the new log reported the old violation'),
+    ('F27', ['C20'], 'fix: explain() read the bounds of timed operators as sample counts',
+     "explain() passed the bounds of timed operators to the explanation functions as they are written (durations with their units) instead of sample counts: with a sampling period other than one default unit or bounds with explicit units (eventually[250ms,250ms] at 0.25 s sampling) the reported intervals were not a sufficient cause"),
 ]
 
 OPEN = [
